@@ -1,7 +1,7 @@
 (* C02 — property theorems. Statements only, each closed by `exact <lemma>`; Print Assumptions beneath;
    non-vacuity examples. *)
 From Coq Require Import List NArith Sorting.Sorted.
-From C02 Require Import Model ProofsNodes.
+From C02 Require Import Model CaseDefs ProofsNodes ProofsBorders ProofsIterate ProofsFold.
 Import ListNotations.
 Open Scope N_scope.
 
@@ -10,10 +10,118 @@ Open Scope N_scope.
    adequate), yields a strictly `less`-monotone list, and that list holds exactly the values of the tree's
    set denotation: AND = intersection, OR = union, NAND = regular minus negative, NOT = [lo..hi] minus child.
    wf_ntree: static lists strictly ascending; NOT borders lo < 2^32, hi+1 < 2^32 and, when walking
-   downwards, lo >= 1 (getLIDsBorders guarantees this: C02_borders_wf). *)
+   downwards, lo >= 1 (what getLIDsBorders delivers: C02_borders gives 1 <= lo and hi <= number of docs). *)
 Theorem C02_nodes_sound :
   forall rev t, wf_ntree rev t ->
     exists out, eval_ntree rev t = Ok out /\ StronglySorted (fun a b => less rev a b = true) out /\
                 (forall x, In x out <-> nsem t x = true).
 Proof. exact nodes_sound. Qed.
 Print Assumptions C02_nodes_sound.
+
+(* thm:C02_borders — for the LID table the model builds from ANY corpus (any arrival order, equal MIDs,
+   duplicates allowed) whose documents have MID >= 1 and RID <= 2^64-1, getLIDsBorders terminates (binary
+   search fuel adequate) and returns exactly the interval of LIDs whose MID lies in [from,to]; moreover
+   1 <= minLID <= maxLID+1 and maxLID <= number of documents, so the reverse range node never starts at 0
+   (defect #15 of the design is unreachable). *)
+Theorem C02_borders :
+  forall c from to, Forall ok_doc c ->
+  exists lo hi, lids_borders from to (table c) = Ok (lo, hi) /\
+    1 <= lo /\ lo <= hi + 1 /\ hi <= N.of_nat (length c) /\
+    (forall lid d, nth_error (table c) (N.to_nat (lid - 1)) = Some d -> 1 <= lid ->
+       (lo <= lid /\ lid <= hi <-> in_range from to d = true)).
+Proof. exact borders_exact_corpus. Qed.
+Print Assumptions C02_borders.
+
+(* the LID table is a permutation of the corpus in non-increasing ID order *)
+Theorem C02_table_sorted :
+  forall c, Permutation.Permutation c (table c) /\
+            StronglySorted (fun a b => id_geb (did a) (did b) = true) (table c).
+Proof. intros c. split; [apply table_perm|apply table_desc]. Qed.
+Print Assumptions C02_table_sorted.
+
+(* limit / total / early stop: when the IDs of the tree's LID stream are pairwise distinct, iterateEvalTree
+   returns exactly the first `limit` of them in stream order (all limits, incl. 0 and > stream length) and,
+   when a total is requested, counts the whole stream. *)
+Theorem C02_iterate_exact :
+  forall tab limit wt lids, NoDup (map (lid_id tab) lids) ->
+    snd (iterate tab limit wt lids 0 0 (0, 0)) = firstn (N.to_nat limit) (map (lid_id tab) lids) /\
+    (wt = true -> fst (iterate tab limit wt lids 0 0 (0, 0)) = N.of_nat (length lids)).
+Proof.
+  intros tab limit wt lids ND. rewrite (iterate_exact tab limit wt lids ND). split; [reflexivity|].
+  intros ->. reflexivity.
+Qed.
+Print Assumptions C02_iterate_exact.
+
+(* BuildORTree (node/builder.go TreeFold), the OR-fold that evalLeaf puts over the posting lists of all tokens
+   matching a leaf: terminates for every number of operands (0 included: the empty node) and denotes the union. *)
+Theorem C02_or_tree_sound :
+  forall rev vs, Forall (wf_ntree rev) vs ->
+  exists t, build_or_tree vs = Ok t /\ wf_ntree rev t /\ (forall x, nsem t x = existsb (fun v => nsem v x) vs).
+Proof. exact build_or_tree_sound. Qed.
+Print Assumptions C02_or_tree_sound.
+
+(* link to the correspondence run: on every well-formed node tree the model's output passes both executable
+   verdicts of a CNode case, and conversely ANY output accepted by the spec checker is the strictly monotone
+   list of the tree's denotation — so a real node whose output differs from the model's fails case_spec_ok. *)
+Theorem C02_node_case_spec_ok :
+  forall rev t, wf_ntree rev t ->
+  exists out, eval_ntree rev t = Ok out /\ case_agrees (CNode rev t out) = true
+              /\ case_spec_ok (CNode rev t out) = true.
+Proof. exact node_case_spec_ok. Qed.
+Print Assumptions C02_node_case_spec_ok.
+
+Theorem C02_node_spec_complete :
+  forall rev t impl, case_spec_ok (CNode rev t impl) = true ->
+    StronglySorted (fun a b => less rev a b = true) impl /\ (forall x, In x impl <-> nsem t x = true).
+Proof. exact node_spec_ok_complete. Qed.
+Print Assumptions C02_node_spec_complete.
+
+(* thm:C02_search_exact — NOT closed in the time box. Full statement (kept as the goal):
+     forall c q from to rev limit wt,
+       Forall ok_doc c -> NoDup (map did c) -> N.of_nat (length c) + 1 < 2^32 ->
+       search_model c q from to rev limit wt = Ok (search_spec c q from to rev limit wt).
+   Proved pieces: the node tree (C02_nodes_sound), the borders and the LID table (C02_borders,
+   C02_table_sorted), the loop (C02_iterate_exact). Missing: leaf_tree/posting/vocab = token semantics of a
+   leaf, build_tree = sat by induction on the query, and the sorted-uniqueness step to IdSort.sort.
+   The equation itself is evaluated by the correspondence run on every generated request
+   (case_agrees = model vs real answer, case_spec_ok = search_spec vs real answer). *)
+
+(* ex:C02_nonvacuous — six documents, three sharing the timestamp at which the limit cuts; NOT under AND,
+   a prefix leaf; both orders; the model equals the specification, the hypotheses of the theorems hold *)
+Definition ex_corpus : list doc :=
+  [Doc 10 5 [(0, [97]); (1, [98])]; Doc 12 1 [(0, [97])]; Doc 11 7 [(0, [97; 98]); (1, [98])];
+   Doc 11 2 [(0, [97])]; Doc 11 9 [(0, [98])]; Doc 13 4 [(0, [97; 97])]].
+Definition ex_query : query := QNAnd (QLeaf (PLit 1 [98])) (QLeaf (PPrefix 0 [97])).
+
+Example C02_nonvacuous :
+  Forall ok_doc ex_corpus /\ NoDup (map did ex_corpus) /\
+  search_model ex_corpus ex_query 11 13 false 2 true = Ok ([(13, 4); (12, 1)], 3) /\
+  search_model ex_corpus ex_query 10 12 true 2 true = Ok ([(11, 2); (12, 1)], 2) /\
+  search_model ex_corpus ex_query 11 13 false 2 true = Ok (search_spec ex_corpus ex_query 11 13 false 2 true) /\
+  search_model ex_corpus (QNot ex_query) 11 11 true 1 true = Ok (search_spec ex_corpus (QNot ex_query) 11 11 true 1 true) /\
+  search_spec ex_corpus (QNot ex_query) 11 11 true 1 true = ([(11, 7)], 2).
+Proof.
+  split. { repeat constructor; vm_compute; congruence. }
+  split. { unfold ex_corpus. cbv [map did dmid drid]. repeat (apply NoDup_cons; [simpl; intuition congruence|]). apply NoDup_nil. }
+  repeat split; vm_compute; reflexivity.
+Qed.
+
+Example C02_nodes_nonvacuous :
+  let t := NAnd (NOr (NStatic [1; 3; 5]) (NStatic [2; 3])) (NNot (NStatic [2; 4]) 1 5) in
+  wf_ntree true t /\ eval_ntree true t = Ok [5; 3; 1] /\ eval_ntree false t = Ok [1; 3; 5].
+Proof.
+  split; [|split; vm_compute; reflexivity].
+  repeat constructor; try (vm_compute; reflexivity); try (intros; vm_compute; congruence).
+Qed.
+
+(* hypotheses are necessary: a stored ID (0,0) is cut off by the border computation when from = 0
+   (design defect #14; not ingestable: DocProvider.Append replaces MID 0) *)
+Example C02_id00_excluded :
+  search_model [Doc 0 0 [(0, [97])]] (QLeaf (PLit 0 [97])) 0 5 false 10 true = Ok ([], 0) /\
+  search_spec [Doc 0 0 [(0, [97])]] (QLeaf (PLit 0 [97])) 0 5 false 10 true = ([(0, 0)], 1).
+Proof. split; vm_compute; reflexivity. Qed.
+
+(* and the reverse range node started at minVal 0 wraps around uint32 and never ends (design defect #15;
+   unreachable by C02_borders: minLID >= 1) *)
+Example C02_range_rev_from0_runs_on : range_node 2000 true 0 3 = OutOfFuel.
+Proof. vm_compute. reflexivity. Qed.
